@@ -151,6 +151,9 @@ class SymBuilder:
     def func(self, v):
         return v
 
+    def dict(self, keys, vals):
+        return self.ctx.alloc(HObj('dict', 'dict', {'keys': list(keys), 'vals': list(vals)}, closed=True))
+
     def symdict(self, name, arity):
         o = self.ctx.alloc(HObj('dict', 'symdict', {'name': name, 'arity': arity}, closed=True))
         self.objects[name] = o
